@@ -11,11 +11,11 @@ Open Scope string_scope.
 
 Theorem SRC_inventory_error : inv_error = [
   ("enum NodeError", ["Debug"; "Clone"; "Copy"]);
-  ("impl NodeError", ["as_str"]);
-  ("impl fmt::Display for NodeError", ["fmt"]);
+  ("impl NodeError", ["as_str := { match self { NodeError :: AppendSelf => 'Can not append a node to itself' , NodeError :: PrependSelf => 'Can not prepend a node to itself' , NodeError :: InsertBeforeSelf => 'Can not insert a node before itself' , NodeError :: InsertAfterSelf => 'Can not insert a node after itself' , NodeError :: Removed => 'Removed node cannot have any parent, siblings, and children' , NodeError :: AppendAncestor => 'Can not append a node to its descendant' , NodeError :: PrependAncestor => 'Can not prepend a node to its descendant' , NodeError :: InsertBeforeAncestor => 'Can not insert a node before its descendant' , NodeError :: InsertAfterAncestor => 'Can not insert a node after its descendant' , } }"]);
+  ("impl fmt::Display for NodeError", ["fmt := { f . write_str (self . as_str ()) }"]);
   ("#[cfg(feature='std')] impl error::Error for NodeError", []);
   ("enum ConsistencyError", ["Debug"; "Clone"; "Copy"]);
-  ("impl fmt::Display for ConsistencyError", ["fmt"]);
+  ("impl fmt::Display for ConsistencyError", ["fmt := { match self { ConsistencyError :: ParentChildLoop => f . write_str ('Specified a node as its parent') , ConsistencyError :: SiblingsLoop => f . write_str ('Specified a node as its sibling') , } }"]);
   ("#[cfg(feature='std')] impl error::Error for ConsistencyError", [])
 ].
 Proof. reflexivity. Qed.
